@@ -379,7 +379,40 @@ def strip_deaths(world):
     return w
 
 
+def twice_same_cases(ctx, n):
+    """the same tests run twice in one process (an embedding program, a watch mode): a layer whose setUp fails the first
+    time only (a resource that is there the second time) - the second run has nothing that went wrong"""
+    rng = ctx.rng
+    for i in range(n):
+        w = worlds.gen_world(rng, n_layers=rng.choice([2, 3]), tests_per_layer=(1, 2), kinds=["pass"], p_fault=0.0, p_write=0.0)
+        cand = [l for l in w["layers"] if l["kind"] != "unit"]
+        for l in cand:
+            l.update(setUp=True, tearDown=True, setUpRaises=[], tearDownFaults=[])
+            l.pop("falsy", None)
+            for k_ in ("slowSetUp", "slowTearDown"):
+                l.pop(k_, None)
+        victim = rng.choice(cand)
+        victim["setUpRaises"] = [0]
+        victim["excStyle"] = rng.choice([None, "cause", "oserror"])
+        for t in w["tests"]:
+            for k_ in ("doctest", "rebind", "ownstream", "label"):
+                t.pop(k_, None)
+        o = {"verbose": rng.choice([0, 1])}
+        res, err = cw.run_in_process(ctx, [(w, o), (w, o)], tag="same", same_dir=True)
+        ctx.count(("twice-same", i, str(w)[:300]), nontrivial=True, sample=None)
+        ctx.bump("same-world-twice-in-one-process")
+        if res is None:
+            ctx.notes.append("twice-same worker failed: %s" % err)
+            continue
+        exits = [r.exit for r in res]
+        if exits != [1, 0] or any(r.exc for r in res):
+            ctx.violation("the same world run twice in one process, a layer whose setUp raises the first time it is called "
+                          "only: verdicts %r (1 = failed), expected [1, 0]; exceptions %r" % (exits, [r.exc for r in res]),
+                          {"world": w, "opts": o, "stdout_second": res[-1].stdout[-1500:]}, signature="C02:second-run")
+
+
 def run(ctx):
+    twice_same_cases(ctx, 2 if ctx.quick() else 20)
     run_cases(ctx, cw.corpus_cases(PROP) + gen_cases(ctx) + child_import_cases(ctx, 3 if ctx.quick() else 40))
     # a child that cannot be started is "something went wrong" too
     from harness import corr_channel
